@@ -16,6 +16,7 @@ fn run_case(line: &str) -> String {
     match kind_owned.as_str() {
       "codec_enc" => codec::codec_enc(&mut t),
       "codec_dec" => codec::codec_dec(&mut t),
+      "rope" => rope::rope_case(&mut t),
       k => panic!("unknown case kind {}", k),
     }
   });
